@@ -850,17 +850,22 @@ class RedlineEngine:
             ins_id = active_mapper.insertion_enclosing_range(start_idx, start_idx + length)
         if not ins_id:
             return None
-        ins_spans = [s for s in active_mapper.spans if s.ins_id == ins_id]
         # The proxy edit is applied through the raw map, so it must be addressed in raw
         # coordinates even when the match was found in the clean view.
         raw_ins_spans = [s for s in self.mapper.spans if s.ins_id == ins_id]
-        if not ins_spans or not raw_ins_spans:
+        if not raw_ins_spans:
             return None
-        full_ins_text = "".join(s.text for s in ins_spans)
-        rel_start = start_idx - ins_spans[0].start
-        expanded_new_text = full_ins_text[:rel_start] + new_text + full_ins_text[rel_start + length :]
-        proxy_edit = DocumentEdit(target_text=full_ins_text, new_text=expanded_new_text, comment=comment)
-        proxy_edit._match_start_index = raw_ins_spans[0].start
+        # Offsets count formatting markers that lie between the insertion's runs; its text does not.
+        full_ins_text, rel_start, rel_end = active_mapper.insertion_text_around(ins_id, start_idx, start_idx + length)
+        if not full_ins_text:
+            return None
+        expanded_new_text = full_ins_text[:rel_start] + new_text + full_ins_text[rel_end:]
+        # The proxy addresses the whole extent of the insertion in the raw text (markers included).
+        raw_start, raw_end = raw_ins_spans[0].start, raw_ins_spans[-1].end
+        proxy_edit = DocumentEdit(
+            target_text=self.mapper.full_text[raw_start:raw_end], new_text=expanded_new_text, comment=comment
+        )
+        proxy_edit._match_start_index = raw_start
         return proxy_edit
 
     @staticmethod
@@ -915,10 +920,10 @@ class RedlineEngine:
 
                 # The insertion is replaced as a whole, so the new insertion carries its whole text
                 # with the range replaced - not only the new text of the range.
-                ins_spans = [s for s in active_mapper.spans if s.ins_id == ins_id]
-                ins_text = "".join(s.text for s in ins_spans)
-                rel_start = max(0, start_idx - ins_spans[0].start) if ins_spans else 0
-                replacement = ins_text[:rel_start] + (edit.new_text or "") + ins_text[rel_start + length :]
+                ins_text, rel_start, rel_end = active_mapper.insertion_text_around(
+                    ins_id, start_idx, start_idx + length
+                )
+                replacement = ins_text[:rel_start] + (edit.new_text or "") + ins_text[rel_end:]
 
                 self._reject_change(ins_id, root=story_root)
 
